@@ -522,7 +522,7 @@ class Database:
         # iterate over the top level H5Groups and copy
         for time, h5ts in zip(inputDB.genTimeSteps(), inputDB.genTimeStepGroups()):
             cyc, tn = time
-            if cyc == startCycle and tn == startNode:
+            if (cyc, tn) >= (startCycle, startNode):
                 # all data up to current state are merged
                 return
             self.h5db.copy(h5ts, h5ts.name)
